@@ -60,6 +60,21 @@ type vRepoC15 struct {
 	keys     map[string]string   // key id -> password
 	keySeq   map[string]int
 	okDigest string // store digest at the last successful invariant evaluation
+	// verified: snapshot id -> digest of the pack/index/config files it was last restored and compared with
+	verified map[string]string
+}
+
+// dataDigest identifies everything besides the snapshot file that a restore depends on:
+// the names of all pack and index files (content-addressed) and the config.
+func (r *vRepoC15) dataDigest() string {
+	var sb strings.Builder
+	for _, tpe := range []backend.FileType{backend.PackFile, backend.IndexFile} {
+		sb.WriteString(strings.Join(r.env.store.Keys(tpe), ","))
+		sb.WriteString(";")
+	}
+	cfg, _ := r.env.store.Get(backend.ConfigFile, "")
+	sb.Write(cfg)
+	return vSum([]byte(sb.String()))
 }
 
 type vMachC15 struct {
@@ -551,11 +566,23 @@ func (m *vMachC15) invariant(t *rapid.T) {
 		if len(listed) != len(r.models) {
 			t.Fatalf("%s lists %d snapshots, model has %d\nhistory:\n  %s", r.name, len(listed), len(r.models), m.history())
 		}
+		dd := r.dataDigest()
+		for id := range r.verified {
+			if _, ok := r.models[id]; !ok {
+				delete(r.verified, id)
+			}
+		}
 		for _, id := range listed {
 			mo, ok := r.models[id]
 			if !ok {
 				t.Fatalf("%s lists snapshot %s which is not in the model\nhistory:\n  %s", r.name, id[:8], m.history())
 			}
+			// a restore is a function of the snapshot file, the index and pack files and the config:
+			// nothing to re-verify if none of them changed since this snapshot was last compared
+			if r.verified[id] == dd {
+				continue
+			}
+			m.st.Class("restores")
 			d, err := r.env.RestoreEq(id, mo.Src, mo.Tree)
 			if err != nil {
 				t.Fatalf("%s: %v\nhistory:\n  %s", r.name, err, m.history())
@@ -563,6 +590,7 @@ func (m *vMachC15) invariant(t *rapid.T) {
 			if d != "" {
 				t.Fatalf("%s: snapshot %s restores differently from its model: %s\nhistory:\n  %s", r.name, id[:8], d, m.history())
 			}
+			r.verified[id] = dd
 		}
 		if n := len(r.env.store.Keys(backend.LockFile)); n != 0 {
 			t.Fatalf("%s: %d lock files left behind\nhistory:\n  %s", r.name, n, m.history())
@@ -1039,7 +1067,7 @@ func TestVerifC15Histories(t *testing.T) {
 			if err := e.Init(ver); err != nil {
 				t.Fatal(err)
 			}
-			r := &vRepoC15{name: string(rune('A' + i)), env: e, src: e.Scratch("src-"), models: map[string]vSnapC15{}, keys: map[string]string{}, keySeq: map[string]int{}}
+			r := &vRepoC15{name: string(rune('A' + i)), env: e, src: e.Scratch("src-"), models: map[string]vSnapC15{}, keys: map[string]string{}, keySeq: map[string]int{}, verified: map[string]string{}}
 			kf := e.store.Keys(backend.KeyFile)
 			if len(kf) != 1 {
 				t.Fatalf("init created %d keys", len(kf))
